@@ -56,7 +56,8 @@ CHECKS["C02"] = {
 
 CHECKS["C06"] = {
     "level": "exploration",
-    "jobs": [J("typedirected", "c06", "TestTypeDirected", 4000, 100000, 12), J("lazyretry", "c06", "TestLazyRetry", 800, 15000, 4), J("failingcandidates", "c06", "TestFailingCandidates", 1000, 20000, 4)],
+    "jobs": [J("typedirected", "c06", "TestTypeDirected", 4000, 100000, 12), J("lazyretry", "c06", "TestLazyRetry", 800, 15000, 4), J("failingcandidates", "c06", "TestFailingCandidates", 1000, 20000, 4),
+             J("lazyafterother", "c06", "TestLazyAfterOtherContainer", 600, 10000, 4)],
     "assumptions": [
         "func:\"M,returns=..\" values are drawn from plain non-numeric strings (result comparison after the container's literal parsing is then plain string equality)",
         "which of several equally admissible components a single-valued point receives is not asserted here (C08/C10)",
@@ -65,7 +66,8 @@ CHECKS["C06"] = {
 CHECKS["C08"] = {
     "level": "exploration",
     "jobs": [J("narrowing", "c08", "TestNarrowing", 4000, 100000, 12),
-             J("narrowing-fmtlogger", "c08", "TestNarrowing", 800, 10000, 2, env={"VERIF_FMT_LOGGER": "1"})],  # every log argument is formatted (trace-level logger)
+             J("narrowing-fmtlogger", "c08", "TestNarrowing", 800, 10000, 2, env={"VERIF_FMT_LOGGER": "1"}),
+             J("lazyafterother", "c08", "TestLazyAfterOtherContainer", 600, 10000, 4)],  # every log argument is formatted (trace-level logger)
     "assumptions": [
         "several Primary components, or no Primary and several unnamed ones, form a tie: any member of that top rank is accepted",
         "qualifier lists are generated as either the single empty qualifier or a list of non-empty names",
@@ -78,6 +80,7 @@ CHECKS["C07"] = {
         J("byname", "c07", "TestByName", 4000, 100000, 12),
         J("duplicates", "c07", "TestDuplicateNames", 500, 5000, 1),
         J("namedcreationfails", "c07", "TestNamedCreationFails", 300, 3000, 1),
+        J("lazyafterother", "c07", "TestLazyAfterOtherContainer", 600, 10000, 4),
     ],
     "assumptions": [
         "named points are generated on single-valued fields only (the property speaks about single-valued points)",
@@ -230,6 +233,7 @@ CHECKS["C16"] = {
         J("prefix", "c16", "TestPrefix", 800, 20000, 4),
         J("wire", "c16", "TestWire", 600, 10000, 2),
         J("retryafterset", "c16", "TestRetryAfterSet", 800, 10000, 2),
+        J("defaults-as-written", "c16", "TestStaticDefaultsAsWritten", None, None),
         J("fuzz-value", "c16", "FuzzValue", None, None, tiers=["thorough"], fuzz={"target": "FuzzValue", "time": {"quick": "10s", "thorough": "120s"}}, timeout={"thorough": 900}),
     ],
     "assumptions": [
